@@ -329,7 +329,7 @@ def condition_kind_shapes():
 
 # ------------------------------------------------------------------------------------------------- arrays (C06)
 ARRAY_ATOMS = ['Rock X with 9001', 'Rock X with 9001, 9002', 'Rock X', 'Roll X', 'Roll X into Y', 'say roll X', 'Let X at 0 be 9003', 'Let X at 2 be 9003', 'Let X at "k" be 9003', 'Let X at null be 9003',
-               'Let Y be X', 'Rock Y with 5', 'Let Y at 0 be 6', 'Roll Y', 'Let X at 1 be Y', 'Rock X with Y', 'Bump taking X', 'Put X at 0 into X',
+               'Rock X with 9001, X', 'Rock X with 9002, X at 0', 'Let Y be X', 'Rock Y with 5', 'Let Y at 0 be 6', 'Roll Y', 'Let X at 1 be Y', 'Rock X with Y', 'Bump taking X', 'Put X at 0 into X',
                'say X at 0', 'say X at 1', 'say X at "k"', 'say X', 'say Y', 'say X at 0 at 0', 'Put X plus 1 into Z\nsay Z']
 
 
